@@ -227,6 +227,15 @@ class STD:
         return t
 
     def total_seconds(self):
+        """exact by default; with CTX.round_total_seconds the result carries one relative rounding error |delta| <= 2^-52
+        (the real method divides integer microseconds by 10^6 in binary64), the same delta for the same timedelta object"""
+        if getattr(CTX, "round_total_seconds", False) and self.secs.f:
+            d = getattr(self, "_delta", None)
+            if d is None:
+                dv = CTX.fresh("ulp")
+                CTX.pre += [dv <= z3.RealVal(2) ** -52, dv >= -(z3.RealVal(2) ** -52)]
+                d = self._delta = R.of(dv)
+            return SF(self.secs * (1 + d))
         return SF(self.secs)
 
     @property
